@@ -346,11 +346,23 @@ PROPS = {
                 "n_quick": 30,
                 "n_thorough": 120,
                 "model": True
+            },
+            {
+                "name": "c07open",
+                "run_vo": "Model/RunRingStore.vo",
+                "n_quick": 30,
+                "n_thorough": 120,
+                "model": True
             }
+        ],
+        "properties": [
+            "C07",
+            "C07_open"
         ],
         "trusted": [
             "modelled, not verified: DER encoding of key rings (decoded by the harness with acra's own asn1 package; byte flips exercise the decoder), LRU eviction (cache modelled as unbounded map), history directories of v1 (C06), symlinks (paths are resolved lexically), Redis storage/backends",
-            "in-memory filesystem.Storage (harness/vh/memfs.go) and the recording wrappers stand for the OS; the v2 directory backend runs on the real file system in a deep sandbox whose parents are scanned"
+            "in-memory filesystem.Storage (harness/vh/memfs.go) and the recording wrappers stand for the OS; the v2 directory backend runs on the real file system in a deep sandbox whose parents are scanned",
+            "c07open (stored bytes changed while the key store is open): recording Backend and signature.Algorithm wrappers of the harness (the adversary acts inside Backend.Get); Model/RingStore.v sees a stored file as (payload bytes, signatures) or 'does not parse' and takes the ring content of a payload and the DER of each newly signed payload from tables produced with acra's own asn1 package (DER itself is not modelled); Put(.new)+Rename is one event; locks, key-data encryption and validity periods are outside that model; v1 public key files (stored in clear, unauthenticated by design) and replay of an OLDER validly signed ring file are outside the property's quantifier and not flagged"
         ],
         "assumptions": [
             "confinement theorems: the root / key directory is an absolute path (is_rooted)",
